@@ -398,7 +398,9 @@ func runC08Unary(t *testing.T, n, nt int) {
 			if rm != 0 && code != 0 {
 				hx.NonTrivial(hx.Digest("u", n, nt, code, rm))
 				if code%499 == 3 {
-					hx.Sample(func() any { return "every unary operation with every argument on " + hx.DescribeNL(graphFromCode(n, nt, code, rm)) })
+					hx.Sample(func() any {
+						return "every unary operation with every argument on " + hx.DescribeNL(graphFromCode(n, nt, code, rm))
+					})
 				}
 			}
 		}
